@@ -69,10 +69,13 @@ __CPROVER_ensures((__CPROVER_old(obj->right->left) == NULL || !__CPROVER_old(obj
                    obj->right->red == !__CPROVER_old(obj->right->red) && obj->left == __CPROVER_old(obj->left) && obj->right == __CPROVER_old(obj->right) &&
                    obj->right->left == __CPROVER_old(obj->right->left) && obj->right->right == __CPROVER_old(obj->right->right)))
 __CPROVER_ensures((__CPROVER_old(obj->right->left) != NULL && __CPROVER_old(obj->right->left->red)) ==>
-                  (__CPROVER_return_value == __CPROVER_old(obj->right->left) && __CPROVER_return_value->left == obj &&
-                   __CPROVER_return_value->red == __CPROVER_old(obj->red) && obj->red == 0 &&
-                   obj->left == __CPROVER_old(obj->left) && obj->left->red == !__CPROVER_old(obj->left->red) &&
-                   obj->right == __CPROVER_old(obj->right->left->left)))
+                  (__CPROVER_return_value == __CPROVER_old(obj->right->left) && __CPROVER_return_value->left == obj))
+__CPROVER_ensures((__CPROVER_old(obj->right->left) != NULL && __CPROVER_old(obj->right->left->red)) ==>
+                  ((__CPROVER_return_value->red != 0) == (__CPROVER_old(obj->red) != 0) && obj->red == 0))   /* != 0: a fresh bool may hold any byte */
+__CPROVER_ensures((__CPROVER_old(obj->right->left) != NULL && __CPROVER_old(obj->right->left->red)) ==>
+                  (obj->left == __CPROVER_old(obj->left) && obj->left->red == !__CPROVER_old(obj->left->red)))
+__CPROVER_ensures((__CPROVER_old(obj->right->left) != NULL && __CPROVER_old(obj->right->left->red)) ==>
+                  (obj->right == __CPROVER_old(obj->right->left->left)))
 __CPROVER_ensures((__CPROVER_old(obj->right->left) != NULL && __CPROVER_old(obj->right->left->red) &&
                    (__CPROVER_old(obj->right->right) == NULL || !__CPROVER_old(obj->right->right->red))) ==>
                   (__CPROVER_return_value->right == __CPROVER_old(obj->right) && __CPROVER_return_value->right->red == 0 &&
